@@ -7,9 +7,15 @@
            wrappers = list of (prefix ((name value)...)) in the order they are applied to a descriptor
    impl  = one entry per op: (0 kind arg) | (1 bool) | (2 (names...))
            kind: 0 nil, 1 AlreadyRegisteredError (arg = index of ExistingCollector, -1 if not one of ours),
-                 2 descriptor invalid, 3 duplicate descriptor, 4 inconsistent help/labels, 5 anything else *)
+                 2 descriptor invalid, 3 duplicate descriptor, 4 inconsistent help/labels, 5 anything else
+   sched case (deterministic scheduler, every operation on r.mtx is a schedule point):
+     (4 collectors progs sched trace results times flags)
+     progs   = per thread ((0 cidx) Register | (1 cidx) Unregister ...)
+     sched   = thread ids, one per executed mutex operation;  trace = ((tid label) ...) as executed
+     results = per thread, in program order: (0 kind arg) | (1 bool);  times = per thread ((inv res) ...)
+     flags   = 1 deadlock | 2 step limit | 4 panic *)
 From Coq Require Import ZArith List Bool.
-From Verif Require Import Base.Str Base.Sx Model.Registry.
+From Verif Require Import Base.Str Base.Sx Base.Conc Model.Registry Model.RegistryLin.
 Import ListNotations.
 Open Scope Z_scope.
 
@@ -31,7 +37,7 @@ Definition d_wrapper (s : sx) : option wrapper := dP dStr d_pairs s.
 Definition apply_wrappers (ws : list wrapper) (d : desc) : desc :=
   fold_left (fun d w => wrap_desc d (fst w) (snd w)) ws d.
 
-Definition d_op (colls : list (list desc)) (s : sx) : option op :=
+Definition d_op (colls : list (list desc)) (s : sx) : option Registry.op :=
   match s with
   | SL [SZ 0; ws; SZ c] =>
       match dL d_wrapper ws, (if 0 <=? c then nth_error colls (Z.to_nat c) else None) with
@@ -77,13 +83,6 @@ Definition d_obs (s : sx) : option iobs :=
   | _ => None
   end.
 
-Definition rres_eqb (a b : rres) : bool :=
-  match a, b with
-  | RNil, RNil => true | RInvalid, RInvalid => true | RDuplicate, RDuplicate => true
-  | RInconsistent, RInconsistent => true
-  | RAlready x, RAlready y => Z.eqb x y
-  | _, _ => false
-  end.
 Definition obs_eqb (a b : obs) : bool :=
   match a, b with
   | BReg x, BReg y => rres_eqb x y
@@ -98,7 +97,7 @@ Fixpoint obss_eqb (a b : list obs) : bool :=
   | _, _ => false
   end.
 
-Record case := mkCase { c_ops : list op; c_impl : list iobs }.
+Record case := mkCase { c_ops : list Registry.op; c_impl : list iobs }.
 
 Definition d_case (s : sx) : option case :=
   match s with
@@ -117,7 +116,113 @@ Definition d_case (s : sx) : option case :=
 Definition all_obs (l : list iobs) : option (list obs) :=
   mapM (fun i => match i with IObs o => Some o | IOther => None end) l.
 
+(* ---------- sched stream ---------- *)
+Notation rM := (reg_machine hash_id).
+
+Definition d_qop (colls : list (list desc)) (s : sx) : option qop :=
+  match s with
+  | SL [SZ 0; SZ c] => match (if 0 <=? c then nth_error colls (Z.to_nat c) else None) with Some ds => Some (QReg c ds) | None => None end
+  | SL [SZ 1; SZ c] => match (if 0 <=? c then nth_error colls (Z.to_nat c) else None) with Some ds => Some (QUnreg ds) | None => None end
+  | _ => None
+  end.
+
+Definition d_qret (s : sx) : option (option qret) :=   (* Some None = an error of no known kind *)
+  match d_obs s with
+  | Some (IObs (BReg e)) => Some (Some (RReg e))
+  | Some (IObs (BUnreg b)) => Some (Some (RUn b))
+  | Some IOther => Some None
+  | _ => None
+  end.
+
+Fixpoint zip3 {A B C} (a : list A) (b : list B) (c : list C) : option (list (A * B * C)) :=
+  match a, b, c with
+  | [], [], [] => Some []
+  | x :: a', y :: b', z :: c' => match zip3 a' b' c' with Some r => Some ((x, y, z) :: r) | None => None end
+  | _, _, _ => None
+  end.
+
+(* the implementation's history: one call per (thread, index) with its observed result and times *)
+Fixpoint thread_calls (tid idx : Z) (l : list (qop * option qret * (Z * Z))) : option (list (Conc.call rM)) :=
+  match l with
+  | [] => Some []
+  | (o, Some r, (i, e)) :: rest =>
+      match thread_calls tid (idx + 1) rest with
+      | Some cs => Some (Conc.mkCall tid idx (o : Conc.op rM) (r : Conc.ret rM) i e :: cs)
+      | None => None
+      end
+  | (_, None, _) :: _ => None
+  end.
+
+Fixpoint impl_history (tid : Z) (progs : list (list qop)) (res : list (list (option qret))) (tms : list (list (Z * Z)))
+  : option (list (Conc.call rM)) :=
+  match progs, res, tms with
+  | [], [], [] => Some []
+  | p :: ps, r :: rs, t :: ts =>
+      match zip3 p r t with
+      | Some l => match thread_calls tid 0 l, impl_history (tid + 1) ps rs ts with
+                  | Some a, Some b => Some (a ++ b)
+                  | _, _ => None
+                  end
+      | None => None
+      end
+  | _, _, _ => None
+  end.
+
+Definition call_eqb (a b : Conc.call rM) : bool :=
+  (c_tid a =? c_tid b) && (c_idx a =? c_idx b) && qret_eqb (c_ret a) (c_ret b) &&
+  (c_inv a =? c_inv b) && (c_res a =? c_res b).
+
+(* every call of a is in b and the lengths agree (calls are identified by thread and index) *)
+Definition same_history (a b : list (Conc.call rM)) : bool :=
+  Nat.eqb (List.length a) (List.length b) && forallb (fun x => existsb (call_eqb x) b) a.
+
+Fixpoint trace_eqb (a b : list (Z * list Z)) : bool :=
+  match a, b with
+  | [], [] => true
+  | (t, l) :: a', (t', l') :: b' => (t =? t') && str_eqb l l' && trace_eqb a' b'
+  | _, _ => false
+  end.
+
+Record scase := mkSCase { sc_progs : list (list qop); sc_sched : list Z; sc_trace : list (Z * list Z);
+                          sc_res : list (list (option qret)); sc_times : list (list (Z * Z)); sc_flags : Z }.
+
+Definition d_scase (s : sx) : option scase :=
+  match s with
+  | SL [SZ 4; colls; progs; sched; tr; res; tms; SZ fl] =>
+      match dL (dL d_raw) colls with
+      | Some colls =>
+          match dL (dL (d_qop colls)) progs, dL dZ sched, dL (dP dZ dStr) tr, dL (dL d_qret) res, dL (dL (dP dZ dZ)) tms with
+          | Some progs, Some sched, Some tr, Some res, Some tms => Some (mkSCase progs sched tr res tms fl)
+          | _, _, _, _, _ => None
+          end
+      | None => None
+      end
+  | _ => None
+  end.
+
+Definition sched_config (c : scase) : Conc.config rM :=
+  run_sched rM (init_config rM q_init (sc_progs c)) (sc_sched c).
+
+Definition check_sched (c : scase) : Z :=
+  if negb (sc_flags c =? 0) then code_spec_violation            (* deadlock, step limit or panic *)
+  else
+    match impl_history 0 (sc_progs c) (sc_res c) (sc_times c) with
+    | None =>
+        (* an error of no known kind is a violation; a malformed record is a harness defect *)
+        if existsb (existsb (fun r => match r with None => true | Some _ => false end)) (sc_res c)
+        then code_spec_violation else code_decode_error
+    | Some h =>
+        if negb (reg_lin_check hash_id h) then code_spec_violation
+        else
+          let m := sched_config c in
+          if all_done rM m && trace_eqb (trace m) (sc_trace c) && same_history h (hist m)
+          then code_ok else code_model_mismatch
+    end.
+
 Definition check (s : sx) : Z :=
+  match s with
+  | SL (SZ 4 :: _) => match d_scase s with Some c => check_sched c | None => code_decode_error end
+  | _ =>
   match d_case s with
   | None => code_decode_error
   | Some c =>
@@ -128,6 +233,7 @@ Definition check (s : sx) : Z :=
           else if negb (obss_eqb (run hash_id (c_ops c)) os) then code_model_mismatch
           else code_ok
       end
+  end
   end.
 
 Definition e_rres (e : rres) : sx :=
@@ -144,8 +250,27 @@ Definition e_sobs (o : sobs) : sx :=
   | TUnreg b => SL [SZ 1; eB b] | TGather n => SL [SZ 2; eL eStr n]
   end.
 
+Definition e_qret (r : qret) : sx := match r with RReg e => e_rres e | RUn b => SL [SZ 1; eB b] end.
+Definition e_call (k : Conc.call rM) : sx :=
+  SL [SZ (c_tid k); SZ (c_idx k); e_qret (c_ret k); SZ (c_inv k); SZ (c_res k)].
+
+(* sched: (machine trace, machine history (tid idx result inv res), all_done, is the IMPLEMENTATION's history linearizable) *)
 Definition explain (s : sx) : sx :=
+  match s with
+  | SL (SZ 4 :: _) =>
+      match d_scase s with
+      | None => SL []
+      | Some c =>
+          let m := sched_config c in
+          SL [eL (fun p => SL [SZ (fst p); eStr (snd p)]) (trace m); eL e_call (hist m); eB (all_done rM m);
+              match impl_history 0 (sc_progs c) (sc_res c) (sc_times c) with
+              | Some h => eB (reg_lin_check hash_id h)
+              | None => SL []
+              end]
+      end
+  | _ =>
   match d_case s with
   | None => SL []
   | Some c => SL [eL e_obs (run hash_id (c_ops c)); eL e_sobs (spec_run (c_ops c))]
+  end
   end.
